@@ -43,7 +43,7 @@ impl<T: RealNumber> BaseVector<T> for Vec<T> {
         proof { T::ops_total(); }
 //@loop 1
             invariant self@.len() == other@.len(), result == vdot(self@, other@, i as int),
-//@before result += self[i] * other[i];
+//@loopbody 1
             proof { T::ops_total(); }
 //@end
 //@extract src/linalg/naive/dense_matrix.rs :: impl<T: RealNumber> BaseVector<T> for Vec<T> :: norm2
@@ -51,7 +51,7 @@ impl<T: RealNumber> BaseVector<T> for Vec<T> {
         proof { T::ops_total(); }
 //@loop 1
             invariant VERUS_ghost_iter.index@ <= self@.len(), norm == vsumsq(self@, VERUS_ghost_iter.index@ as int),
-//@before norm += *xi * *xi;
+//@loopbody 1
             proof { T::ops_total(); assert(*xi == self@[VERUS_ghost_iter.index@ as int]); }
 //@end
 //@extract src/linalg/naive/dense_matrix.rs :: impl<T: RealNumber> BaseVector<T> for Vec<T> :: div_element_mut
@@ -100,7 +100,7 @@ impl<T: RealNumber> BaseVector<T> for Vec<T> {
 //@loop 1
                 invariant self@.len() == other@.len(),
                     forall|k: int| 0 <= k < i ==> vclose(self@[k], other@[k], error),
-//@before if (self[i] - other[i]).abs() > error {
+//@loopbody 1
                 proof { T::ops_total(); }
 //@end
 //@extract src/linalg/naive/dense_matrix.rs :: impl<T: RealNumber> BaseVector<T> for Vec<T> :: sum
@@ -108,7 +108,7 @@ impl<T: RealNumber> BaseVector<T> for Vec<T> {
         proof { T::ops_total(); }
 //@loop 1
             invariant VERUS_ghost_iter.index@ <= self@.len(), sum == vsum(self@, VERUS_ghost_iter.index@ as int),
-//@before sum += *self_i;
+//@loopbody 1
             proof { T::ops_total(); assert(*self_i == self@[VERUS_ghost_iter.index@ as int]); }
 //@end
 }
